@@ -234,6 +234,26 @@ def parse_bad(out):
     return [int(x) for x in re.split(r"[;\s]+", body) if x.strip()]
 
 
+DIAG_V = """From Coq Require Import ZArith List.
+From Model Require Import Bus.
+From Run Require Import {data}.
+Import ListNotations.
+Local Open Scope Z_scope.
+Eval vm_compute in option_map (fun c => show_case {variant} (snd c)) (find (fun c => fst c =? {idx}) cases).
+"""
+
+
+def diagnose(variant, idx, case, tag="Diag_C13"):
+    """What the model does on one case next to what the compiled code did (text)."""
+    dv = os.path.join(vlib.RUN, tag + ".v")
+    vlib.write_if_changed(dv, DIAG_V.format(data="Cases_C13_%d" % (idx // SHARD), variant=variant, idx=idx))
+    rc, out, _, _ = vlib.coqc(dv, timeout=300)
+    model = re.sub(r"\s+", " ", out[out.find("="):] if "=" in out else out)
+    obs = [(o["op"], o["obs"]) for o in case["ops"]]
+    return "case %s: compiled code observed (op, outcome) %s, log of %d events; model %s (per op: outcome, data after a dump; then the log): %s" % (
+        case["name"], obs, case.get("logn", 0), variant, model[:1200])
+
+
 def tie_variant(variant, shards):
     """Compile the tie lemma of every shard for one EaDump variant. Returns (ok, bad case indices, log, secs)."""
     def job(k):
@@ -305,7 +325,7 @@ def run_c13(ck):
     theorems_ok = all(o["discharged"] for o in ck.obligations)
 
     # 2. tie: cases run on the real code, agreement checked by the kernel
-    cases, variant, tie_ok = [], None, False
+    cases, variant, tie_ok, tie_case = [], None, False, None
     feat_count, distinct = {}, set()
     nops = 0
     tie_detail = "harness unavailable"
@@ -355,6 +375,11 @@ def run_c13(ck):
                     names = [cases[i]["name"] for i in results[best][1][:8]]
                     tie_detail = "no variant of the model agrees with the compiled code; closest %s, disagreeing cases: %s %s" % (
                         best, names, results[best][2])
+                    if results[best][1]:
+                        i0 = results[best][1][0]
+                        tie_case = {"variant": best, "case": {k: cases[i0][k] for k in ("name", "mems", "ops")},
+                                    "explanation": diagnose(best, i0, cases[i0])}
+                        tie_detail += " | " + tie_case["explanation"]
                     ck.cov["tie_disagreeing_cases"] = {v: [cases[i]["name"] for i in r[1][:20]] for v, r in results.items()}
     ck.oblige("tie: compiled bus/memory code = Model/Bus.v on every generated case (Lemma tie in Run/Tie_C13_*.v, by the kernel)",
               tie_ok, tie_detail)
@@ -379,7 +404,7 @@ def run_c13(ck):
         broken = [o["name"] for o in ck.obligations if not o["discharged"]]
         kind = "broken-correspondence" if (theorems_ok and not tie_ok) or (theorems_ok and not dump_ok) else "broken-theorem"
         ck.violation("obligation", kind, "Go falsifier found no failing input; broken: " + "; ".join(broken),
-                     {"broken_obligations": broken, "tie": tie_detail})
+                     {"broken_obligations": broken, "tie": tie_detail, "disagreeing_case": tie_case})
     if fails and tie_ok and variant == "DumpRepaired":
         ck.cov["note"] = "falsifier found a counterexample although proofs and tie passed: the model or the tie generator misses it"
 
@@ -426,13 +451,36 @@ Definition show {{A}} (r : res A) : option A * list event := match r with Ok a s
 def replay(pid, rp):
     """Re-run one falsifier scenario on the current tree (Go) and in the model (Coq, both EaDump variants)."""
     r = rp.get("replay", rp)
-    sc = r.get("scenario")
-    if not sc:
-        print("replay file carries no scenario:", json.dumps(r)[:500])
-        return 1
     harness, herr = vlib.build_harness()
     if harness is None:
         print(herr)
+        return 1
+    sc = r.get("scenario")
+    if not sc and r.get("disagreeing_case"):
+        # a model/code disagreement: re-run the case on this tree and ask the kernel again, both variants
+        dc = r["disagreeing_case"]
+        rc, out, _ = vlib.sh([harness, "buscase", json.dumps(dc["case"])], timeout=300)
+        if rc != 0:
+            print(out)
+            return 1
+        c = json.loads(out.strip().splitlines()[-1])
+        os.makedirs(vlib.RUN, exist_ok=True)
+        dv = os.path.join(vlib.RUN, "Cases_C13_9999.v")
+        vlib.write_if_changed(dv, DATA_HDR + gal_case(9999 * SHARD, c) + "\n].\n")
+        vlib.coqc(dv, timeout=300)
+        agree = []
+        for v in ("DumpRepaired", "DumpCurrent"):
+            tv = os.path.join(vlib.RUN, "Tie_C13_%s_9999.v" % v)
+            vlib.write_if_changed(tv, TIE_V.format(data="Cases_C13_9999", variant=v))
+            rc2, out2, _, _ = vlib.coqc(tv, timeout=300)
+            print("model variant %s: %s" % (v, "agrees with the compiled code on this case" if rc2 == 0 else "DISAGREES"))
+            if rc2 == 0:
+                agree.append(v)
+            else:
+                print(diagnose(v, 9999 * SHARD, c, "Diag_C13_replay"))
+        return 0 if "DumpRepaired" in agree else 1
+    if not sc:
+        print("replay file carries neither a scenario nor a disagreeing case:", json.dumps(r)[:500])
         return 1
     rc, out, _ = vlib.sh([harness, "busreplay", json.dumps(sc)], timeout=300)
     print(out.strip())
